@@ -494,7 +494,7 @@ class Wire(object):
             raise NotConformant('response root is %s, WSDL says %s' % (el.tag, eq))
         tq, ens, enode = S.elements[eq]
         rets = md['returns']
-        if md['style'] in ('bare', 'out_bare'):
+        if md['style'] in ('bare', 'out_bare', 'empty_out_bare'):
             if not rets:
                 return []
             return [self.codec.dec_one(el, tq, rets[0])]
